@@ -53,6 +53,10 @@ class _DropNoOps(ast.NodeTransformer):
             if isinstance(v, ast.Constant) and isinstance(v.value, str):
                 return False          # docstrings are handled by strip_doc (position matters there)
             if isinstance(v, ast.Call):
+                # only calls whose arguments cannot have an effect of their own (no nested call, no walrus)
+                for a in list(v.args) + [k.value for k in v.keywords]:
+                    if any(isinstance(n, (ast.Call, ast.NamedExpr, ast.Await, ast.Yield, ast.YieldFrom)) for n in ast.walk(a)):
+                        return False
                 f = v.func
                 if isinstance(f, ast.Name) and f.id == "print":
                     return True
@@ -690,18 +694,203 @@ def gen_config(repo):
 GENERATORS = {"Enums.v": gen_enums, "LabelTables.v": gen_labels, "ConfigTables.v": gen_config}
 
 
+# ---------------------------------------------------------------------------------------------
+# fallback: tables and parser behaviour read from the RUNNING code (translator/probe.py) when a shape is not recognised
+# ---------------------------------------------------------------------------------------------
+def _alower(s):
+    return "".join(chr(ord(c) + 32) if "A" <= c <= "Z" else c for c in s)
+
+
+def _aupper(s):
+    return "".join(chr(ord(c) - 32) if "a" <= c <= "z" else c for c in s)
+
+
+def _run_parser(members, aliases, default, shape, s):
+    """Python mirror of Model/EnumParse.v run_parser; results as probe.py classifies them."""
+    pre, cmpk, ret, miss = shape
+    name = {"PreNone": s, "PreLower": _alower(s), "PreUpper": _aupper(s)}[pre]
+    hit = None
+    for k, v in members:
+        key = {"CmpValue": v, "CmpValueLower": _alower(v), "CmpKey": k, "CmpNever": None}[cmpk]
+        if key is not None and key == name:
+            hit = k
+            break
+    if hit is not None:
+        return ["member", hit] if ret == "RetMember" else ["str", hit]
+    if miss == "MissRaise":
+        return ["raises"]
+    if miss == "MissNone":
+        return ["none"]
+    for a, k in aliases:
+        if a == name:
+            return ["member", k]
+    return ["member", default] if default is not None else ["raises"]
+
+
+def _infer_shape(pname, members, aliases, default, probes):
+    for pre in ("PreNone", "PreLower", "PreUpper"):
+        for cmpk in ("CmpValue", "CmpValueLower", "CmpKey", "CmpNever"):
+            for ret in ("RetMember", "RetKey"):
+                for miss in ("MissRaise", "MissNone", "MissAlias"):
+                    shape = (pre, cmpk, ret, miss)
+                    ok = True
+                    for sp, got in probes:
+                        if any(ord(c) > 126 or ord(c) < 32 for c in sp):
+                            continue
+                        want = _run_parser(members, aliases, default, shape, sp)
+                        g = ["raises"] if got[0] == "raises" else got
+                        if want != g:
+                            ok = False
+                            break
+                    if ok:
+                        return shape
+    fail(f"{pname}: no parser shape of Model/EnumParse.v reproduces the probed behaviour")
+
+
+def _probe(repo):
+    import json
+    import subprocess
+
+    py = "/venv/bin/python" if os.path.exists("/venv/bin/python") else sys.executable
+    env = dict(os.environ, PYTHONPATH=os.path.join(repo, "perception_eval"), PYTHONHASHSEED="0", MPLBACKEND="Agg")
+    p = subprocess.run([py, "-W", "ignore", os.path.join(os.path.dirname(os.path.abspath(__file__)), "probe.py"), repo],
+                       capture_output=True, text=True, env=env, timeout=300)
+    if p.returncode != 0:
+        fail("probe of the running code failed: " + (p.stderr or p.stdout)[-300:])
+    return json.loads(p.stdout)
+
+
+def _pairs(rows):
+    return coq_list([f"({coq_str(a)}, {coq_str(b)})" for a, b in rows])
+
+
+def infer_enums(P, why):
+    out = [f"(* INFERRED by translator/py_to_coq.py from the RUNNING code of /repo (probe.py): {why.replace('*)', '* )')} *)",
+           "From Coq Require Import String List.", "From PE Require Import Model.EnumParse.", "Import ListNotations.", "Open Scope string_scope.", ""]
+    M = {k: [tuple(x) for x in v] for k, v in P["members"].items()}
+    default = P["alias_default"][1] if P["alias_default"][0] == "member" else None
+    aliases = [(a, r[1]) for a, r in sorted(P["alias_table"].items()) if r[0] == "member" and r[1] != default]
+    if not P.get("is_2d_is_not_3d"):
+        fail("is_2d is not the negation of is_3d")
+
+    def parser(name, enum, al=(), df=None):
+        return emit_parser(name, _infer_shape(name, M[enum], list(al), df, P["probes"][name]))
+    out.append(emit_enum("EvaluationTask", M["EvaluationTask"]))
+    out.append(parser("EvaluationTask_from_value", "EvaluationTask"))
+    out.append(parser("set_task", "EvaluationTask"))
+    for meth in ("is_3d", "is_fp_validation"):
+        out.append(f"Definition EvaluationTask_{meth} : list string := {coq_list([coq_str(k) for k in P[meth]])}.\n")
+    out.append(emit_enum("FrameID", M["FrameID"]))
+    out.append(parser("FrameID_from_value", "FrameID"))
+    out.append(f"Definition FrameID_str_eq : bool := {'true' if P['FrameID_str_eq'] else 'false'}.\n")
+    out.append(emit_enum("Visibility", M["Visibility"], aliases, default))
+    out.append(parser("Visibility_from_value", "Visibility", aliases, default))
+    out.append(emit_enum("SensorModality", M["SensorModality"]))
+    out.append(parser("SensorModality_from_value", "SensorModality"))
+    out.append(emit_enum("ShapeType", M["ShapeType"]))
+    out.append(parser("ShapeType_from_value", "ShapeType"))
+    sb = all(r[0] == "member" and r[1] == k for (k, v) in M["ShapeType"] for r in [P["Shape_init"].get(v, ["?"])])
+    out.append(f"Definition Shape_init_str_branch : bool := {'true' if sb else 'false'}.\n")
+    out.append(emit_enum("MatchingLabelPolicy", M["MatchingLabelPolicy"]))
+    out.append(parser("MatchingLabelPolicy_from_str", "MatchingLabelPolicy"))
+    val2key = {v: k for k, v in M["FrameID"]}
+    tb = all(isinstance(r, list) and len(r) == 2 and r[0] == val2key.get(a) and r[1] == val2key.get(b) for a, b, r in P["TransformKey_init"])
+    out.append(f"Definition TransformKey_init_str_branch : bool := {'true' if tb else 'false'}.\n")
+    return "\n".join(out)
+
+
+def infer_labels(P, why):
+    out = [f"(* INFERRED by translator/py_to_coq.py from the RUNNING code of /repo (probe.py): {why.replace('*)', '* )')} *)",
+           "From Coq Require Import String List.", "Import ListNotations.", "Open Scope string_scope.", ""]
+    for en in ("AutowareLabel", "TrafficLightLabel"):
+        ms = [tuple(x) for x in P["label_members"][en]]
+        if "UNKNOWN" not in [k for k, _ in ms]:
+            fail(f"{en} has no UNKNOWN member")
+        out.append(f"Definition {en}_members : list (string * string) := {_pairs(ms)}.\n")
+    out.append(f"Definition autoware_pairs_merge : list (string * string) := {_pairs(P['autoware_pairs']['True'])}.\n")
+    out.append(f"Definition autoware_pairs_nomerge : list (string * string) := {_pairs(P['autoware_pairs']['False'])}.\n")
+    tl = P["traffic_light_pairs"]
+    groups = {}
+    for task, rows in tl.items():
+        groups.setdefault(json_key(rows), []).append(task)
+    singles = [ts[0] for ts in groups.values() if len(ts) == 1]
+    if len(groups) != 2 or len(singles) != 1:
+        fail("traffic-light tables: expected one task with a table of its own")
+    ctask = singles[0]
+    other = next(t for t in tl if t != ctask)
+    out.append(f"Definition traffic_light_pairs_classification : list (string * string) := {_pairs(tl[ctask])}.\n")
+    out.append(f"Definition traffic_light_pairs_other : list (string * string) := {_pairs(tl[other])}.\n")
+    out.append(f"Definition traffic_light_classification_task : string := {coq_str(ctask)}.\n")
+    # the lookup loops, from the converters' behaviour
+    lower_l = lower_n = True
+    first_l, first_n = None, None
+    uses_name = True
+    for key, cv in P["converter"].items():
+        infos = [tuple(x) for x in cv["infos"]]
+        table = {}
+        for lab, nm in infos:
+            table.setdefault(nm, []).append(lab)
+        for sp, gl, gn, tgt in cv["rows"]:
+            labs = table.get(_alower(sp))
+            exact = table.get(sp)
+            if labs and not exact:
+                lower_l = lower_l and gl in labs
+                lower_n = lower_n and gn in labs
+            cand = exact or labs
+            if cand and len(set(cand)) > 1:
+                fl = True if gl == cand[0] else (False if gl == cand[-1] else None)
+                fn_ = True if gn == cand[0] else (False if gn == cand[-1] else None)
+                if fl is None or fn_ is None or (first_l not in (None, fl)) or (first_n not in (None, fn_)):
+                    fail("label lookup is neither first-match nor last-match")
+                first_l, first_n = fl, fn_
+            uses_name = uses_name and tgt == [gn]
+    out.append(f"Definition convert_label_lower : bool := {'true' if lower_l else 'false'}.")
+    out.append(f"Definition convert_label_first_match : bool := {'true' if first_l in (None, True) else 'false'}.")
+    out.append(f"Definition convert_name_lower : bool := {'true' if lower_n else 'false'}.")
+    out.append(f"Definition convert_name_first_match : bool := {'true' if first_n is True else 'false'}.\n")
+    out.append(f"Definition set_target_lists_uses_convert_name : bool := {'true' if uses_name else 'false'}.\n")
+    return "\n".join(out)
+
+
+def json_key(rows):
+    import json
+
+    return json.dumps(rows)
+
+
+def infer_config(P, why):
+    out = [f"(* INFERRED by translator/py_to_coq.py from the RUNNING code of /repo (probe.py): {why.replace('*)', '* )')} *)",
+           "From Coq Require Import String List.", "Import ListNotations.", "Open Scope string_scope.", ""]
+    out.append(f"Definition perception_support_tasks : list string := {coq_list([coq_str(x) for x in P['perception_support_tasks']])}.\n")
+    out.append(f"Definition sensing_support_tasks : list string := {coq_list([coq_str(x) for x in P['sensing_support_tasks']])}.\n")
+    out.append(f"Definition check_tasks_rejects_unsupported : bool := {'true' if P['check_tasks_rejects_unsupported'] is True else 'false'}.\n")
+    return "\n".join(out)
+
+
+INFERRERS = {"Enums.v": infer_enums, "LabelTables.v": infer_labels, "ConfigTables.v": infer_config}
+
+
 def regenerate(repo, outdir):
     """Write Gen/*.v (only when content changes).  Returns {file: error or None}."""
     os.makedirs(outdir, exist_ok=True)
     status = {}
+    probe_cache = {}
     for fn, g in GENERATORS.items():
         path = os.path.join(outdir, fn)
         try:
             txt = g(repo) + "\n"
         except (TranslatorError, SyntaxError, OSError) as e:
-            status[fn] = f"{type(e).__name__}: {e}"
-            # leave a file that cannot compile so that nothing downstream silently uses stale tables
-            txt = f"(* translator failed: {str(e).replace('*)', '* )')} *)\nDefinition translator_failed : False := I.\n"
+            why = f"{type(e).__name__}: {e}"
+            try:
+                # the SHAPE is not recognised (e.g. a refactoring): read tables and parser behaviour from the running code instead
+                if probe_cache.get("data") is None:
+                    probe_cache["data"] = _probe(repo)
+                txt = INFERRERS[fn](probe_cache["data"], "source shape not recognised -- " + why) + "\n"
+                status[fn] = "inferred: " + why
+            except Exception as e2:  # noqa: BLE001
+                status[fn] = why + f" (and the fallback failed: {type(e2).__name__}: {e2})"
+                # leave a file that cannot compile so that nothing downstream silently uses stale tables
+                txt = f"(* translator failed: {why.replace('*)', '* )')} *)\nDefinition translator_failed : False := I.\n"
         else:
             status[fn] = None
         old = None
@@ -718,7 +907,7 @@ if __name__ == "__main__":
     repo = sys.argv[1] if len(sys.argv) > 1 else "/repo"
     outdir = sys.argv[2] if len(sys.argv) > 2 else os.path.join(os.path.dirname(os.path.abspath(__file__)), "..", "coq", "theories", "Gen")
     st = regenerate(repo, outdir)
-    bad = {k: v for k, v in st.items() if v}
+    bad = {k: v for k, v in st.items() if v and not v.startswith("inferred:")}
     for k, v in st.items():
         print(f"{k}: {'ok' if v is None else v}")
     sys.exit(1 if bad else 0)
